@@ -710,6 +710,9 @@ func (e *e2) call(f *ssa.Function, in ssa.CallInstruction, val ssa.Value) {
 			}
 		}
 		if len(callees) == 0 {
+			// a function value the analysis does not know (a gorgonia function handed in as a kernel): the reuse
+			// options among its arguments say where it writes, whatever it is
+			e.optionSitesOfUnknownCallee(f, in, val)
 			return
 		}
 	}
@@ -968,4 +971,43 @@ func passThroughResults(fn *ssa.Function) map[int]int {
 	}
 	passThroughMemo[fn] = out
 	return out
+}
+
+// optionSitesOfUnknownCallee: WithReuse(t) / WithIncr(t) / UseUnsafe() among the arguments of a call whose callee is
+// not known are honoured by every gorgonia function that takes FuncOpts: the result is written into t (into the first
+// argument for UseUnsafe) and aliases it.
+func (e *e2) optionSitesOfUnknownCallee(f *ssa.Function, in ssa.CallInstruction, val ssa.Value) {
+	args := in.Common().Args
+	alias := tokset{}
+	for oi, op := range args {
+		for k := range e.get(op) {
+			if !isOpt(k) {
+				continue
+			}
+			rest := strings.TrimPrefix(k, "OPT:")
+			j := strings.IndexByte(rest, ':')
+			if j < 0 {
+				continue
+			}
+			kind, inner := rest[:j], rest[j+1:]
+			switch kind {
+			case "reuse", "incr":
+				e.recordSite(mutSite{fn: f, instr: in, what: "call of a function value+With" + strings.Title(kind), target: args[oi], levels: "D", viaOpt: kind})
+				if kind == "reuse" && inner != "" {
+					alias.add(inner)
+				}
+			case "unsafe":
+				if len(args) > 0 {
+					e.recordSite(mutSite{fn: f, instr: in, what: "call of a function value+UseUnsafe", target: args[0], levels: "D"})
+					alias.addAll(withLevels(e.get(args[0]), "HD", false))
+				}
+			}
+		}
+	}
+	if val != nil && len(alias) > 0 {
+		ts := e.tupleOf(val, 2)
+		if ts[0].addAll(alias) {
+			e.changed = true
+		}
+	}
 }
